@@ -94,6 +94,7 @@ type Interp struct {
 	strOrder    []string
 	choiceOrder []string
 	tags        []string
+	fmtLenient  bool
 }
 
 type Observation struct {
